@@ -6,23 +6,32 @@ from checks.syntaxlib import run_syntax
 META = {
     "text": "Spec.run (Lean) is the definition of what the source text says. Bytecode level (model A2): Compile.compile reproduces the single pass of the Go "
             "compiler (resource table with constant de-duplication, APUSH/BUMP choreography, NeededBalances, Sources, every static rejection) and VM.run the "
-            "stack machine with every Go panic site as an explicit outcome. Proved: compile_rejects (compile refuses exactly when the static rules `check` do, "
-            "both directions, the two size limits being outcomes of their own), compile_accepts_checked, compile_static_rejects, compile_rejects_unchecked, "
-            "compile_deterministic, compile_correct_partial (for the fragment: sends whose source is any nesting of account [with overdraft clauses, @world] | "
-            "max | in-order and whose destination is an account, save, set_tx_meta, set_account_meta, print, fail: VM.run of the compiled program = Spec's "
-            "statement semantics evalStmts + metadata merge, by frame lemmas per construct), opcode_table_matches / type_table_matches (decide, against tables "
-            "regenerated from the Go sources on every run), rejected_not_run, cache_transparent(_seq) for every cache size and eviction policy. Ties: bytecode "
-            "equality (instruction bytes, typed resources, needed balances, sources identical to the real compiler's on every generated program, same "
-            "compile_error verdict), VM model vs real VM, end-to-end Spec vs compiler+VM (each compiled program executed twice to detect state left in it); the "
+            "stack machine with every Go panic site as an explicit outcome. Proved: compile_correct — for EVERY program the compiler model accepts (the whole "
+            "language: sources account|overdraft|max|in-order|allotment, destinations account|ordered max/remaining/kept|allotment, send-all, save, metadata, "
+            "print, fail; variables of every origin), every variable map and every store, VM.run of the compiled program (SetVarsFromJSON, ResolveResources, "
+            "ResolveBalances, Execute, metadata merge) yields exactly the postings, transaction metadata, account metadata and printed values Spec.run yields, "
+            "or an error of the same class, and never a panic. Its parts: resolution_stage_eq (the VM's resolution stage fails exactly when Spec.prepare / "
+            "checkBalanceVars do, same class, and otherwise resolves every resource to its value under Spec's environment and builds exactly Spec's initial "
+            "balances: NeededBalances resolved = Spec.needed), frame lemmas per construct (expr_ok, source_ok, takeFromSource_ok, dest_ok/kd_ok/caps_ok/"
+            "allot_ok, allotment_ok, allotSources_ok, stmt_okQ/stmt_ok2), compile_correct_text / front_wellFormed (the same from the TEXT: what lex+parse accept is well "
+            "formed), compile_correct_frag and compile_correct_partial (earlier, weaker statements, kept). "
+            "Also: compile_rejects (compile refuses exactly when the static rules `check` do, the two size limits being outcomes of their own), "
+            "compile_accepts_checked, compile_static_rejects, compile_rejects_unchecked, compile_deterministic, opcode_table_matches / type_table_matches "
+            "(decide, against tables regenerated from the Go sources on every run), rejected_not_run, cache_transparent(_seq) for every cache size and "
+            "eviction policy. Ties: bytecode equality (instruction bytes, typed resources, needed balances, sources identical to the real compiler's on every "
+            "generated program, same compile_error verdict), VM model vs real VM, end-to-end Spec vs compiler+VM (each compiled program executed twice to detect state left in it); the "
             "engine's real compilation cache (command.NewCompiler, sizes 1 / 2 / 1024) is fed sequences of near-identical texts (blanks in strings and in the "
             "multi-word overdraft tokens, comments, CRLF, trailing newline, letter case, one digit) and must hand out, at every position, exactly what a fresh "
             "compiler.Compile of that text gives (cache-not-transparent).",
-    "note": "PARTIAL: compile_correct is proved for the fragment above and from the resolved state on; source/destination allotments, ordered destinations "
-            "(max/remaining/kept) and the equivalence of the two resolution stages (Spec.prepare/initBal vs SetVarsFromJSON/ResolveResources/ResolveBalances) rest "
-            "on the differentials; so does the concurrency clause (shared *Program under concurrent use); the digest injectivity is a hypothesis of "
+    "note": "compile_correct has three side conditions (Script.wellFormed), none a restriction of the language: at least one statement (the grammar requires "
+            "it), in-order source lists and allotments shorter than 2^64 (their length is an operand read through big.Int.Uint64), no portion literal with a "
+            "zero denominator (big.Rat has none; the parser produces none) — front_wellFormed proves that the front-end model only produces such scripts from "
+            "texts shorter than 2^64 characters, so compile_correct_text (text in, observations out) has no hypothesis on the syntax tree. The theorems are "
+            "about the compiler and VM MODELS; that the models are the Go compiler and VM rests on the bytecode-equality and VM differentials. PARTIAL for the "
+            "concurrency clause (shared *Program under concurrent use: covered by the differential only); the digest injectivity is a hypothesis of "
             "cache_transparent. Trusted: Lean kernel; Spec; harness pretty-printer instead of the ANTLR parser.",
-    "technique": "Lean 4 proof (compiler model, rejection equivalence, frame lemmas / simulation VM vs Spec, cache refinement) + differential correspondence "
-                 "(bytecode equality, VM model vs VM, Spec vs compiler+VM) + regenerated opcode/type tables",
+    "technique": "Lean 4 proof (compiler model, rejection equivalence, resolution-stage simulation, frame lemmas / simulation VM vs Spec for every construct, "
+                 "cache refinement) + differential correspondence (bytecode equality, VM model vs VM, Spec vs compiler+VM) + regenerated opcode/type tables",
     "design_ref": "5 (C08), 3.2, 3.3",
 }
 
@@ -81,9 +90,9 @@ def run_cache(ctx, build=True):
 
 def run(ctx):
     ctx.cov["trusted_base"] = TRUSTED + TRUSTED_A2 + ["digest injectivity on the scripts in use is a hypothesis of cache_transparent, not an axiom"]
-    ctx.cov["partial"] = ("compile_correct proved for the fragment {send from account|overdraft|max|in-order sources to an account, save, set_tx_meta, "
-                           "set_account_meta, print, fail} from the resolved state on; allotments, ordered destinations, the resolution-stage "
-                           "equivalence and the concurrency of a shared cached program are covered by the differentials only")
+    ctx.cov["partial"] = ("compile_correct is proved for the whole language about the compiler and VM MODELS (side conditions: one statement at least, lists "
+                           "shorter than 2^64, no zero-denominator portion literal); that the models are the Go code, and the concurrency of a shared "
+                           "cached program, are covered by the differentials only")
     regen_opcodes(ctx)
     ctx.l1()
     if _replay_area(ctx) == "nscache":
